@@ -167,6 +167,34 @@ def run(ctx):
                         o["cmd"], ", then %d entries with an invalid address" % o["bad_entries"] if o.get("bad_entries") else "", why)
                     path = ctx.write_replay("e2e-" + o["cmd"] + ("-bad" if o.get("bad_entries") else ""), {"property": "C08", "what": why, "input": {"args": o["args"], "targets": o["targets"]}, "observed": o})
                     ctx.findings.append({"key": "e2e:" + o["cmd"] + (":bad-entries" if o.get("bad_entries") else ""), "what": why, "replay": path})
+    if rows and os.path.exists(os.path.join(ctx.work, "sx")):
+        # failing and negative probes end to end: a good service, a closed port, a peer that never answers and (socks) a
+        # peer that refuses every method -- one record per detecting probe, one error record per failed probe, none
+        # for a negative probe, no crash
+        ok, _ = ctx.harness_run("c08", ["-e2efault", os.path.join(ctx.work, "sx"), "-out", "e2efault.jsonl"], timeout=300)
+        for o in (ctx.read_jsonl(os.path.join(ctx.work, "e2efault.jsonl")) if ok else []):
+            roles = o["roles"]
+            if len(roles) < 3:
+                ctx.skipped.append("e2e fault run of %s: listeners could not be set up" % o["cmd"])
+                continue
+            ctx.count("e2e-fault", ("e2e-fault", o["cmd"]), nontrivial=True,
+                      sample={"cmd": o["cmd"], "roles": sorted(roles.values()), "records": o["records"], "error_records": o["err_records"], "ms": o["ms"]})
+            good = [t for t, r in roles.items() if r == "good"]
+            failing = [t for t, r in roles.items() if r in ("closed", "silent")]
+            why = None
+            if o["panic"]:
+                why = "the process crashes: %s" % o["panic"]
+            elif o["exit"] != 0:
+                why = "exit status %d (%s)" % (o["exit"], o["stderr"][:200])
+            elif o["records"] != {t: 1 for t in good}:
+                why = "the records printed are %s; only %s detected the service" % (o["records"], good)
+            elif o["err_records"] != len(failing) or any(o["err_for"].get(t, 0) != 1 for t in failing):
+                why = "%d probes fail (%s) but %d error records are written, per target %s (each failed probe yields exactly one error record)" % (
+                    len(failing), ", ".join("%s: %s" % (t, roles[t]) for t in failing), o["err_records"], o["err_for"])
+            if why:
+                why = "sx %s --json -f <pairs: %s> -w 2 -t 500ms: %s" % (o["cmd"], ", ".join("%s = %s" % (t, r) for t, r in sorted(roles.items())), why)
+                path = ctx.write_replay("e2e-fault-" + o["cmd"], {"property": "C08", "what": why, "input": {"args": o["args"], "roles": roles}, "observed": o})
+                ctx.findings.append({"key": "e2e-fault:" + o["cmd"], "what": why, "replay": path})
     if model_ok and rows:
         small = [o for o in rows if len(o["reqs"] or []) <= 120 and o["w"] <= 16 and not o["panic"] and o["returned"]]
         small = small[:48 if quick else 400]
